@@ -413,6 +413,45 @@ def r10(ctx, prog):
         raise AnalysisBroken('expected >= 6 result/threshold tests in BufferedFd, found %d' % n)
 
 
+def r11(ctx, prog):
+    ctx.rule('C06.R11', 'A6 who may report the peer\'s close: TcpConnection::onSocketClosed — which tears the connection down and reports "disconnected" — is reached only from the '
+             'read side (bound as the read-zero callback, or called by the handler bound as the read-error callback): only a read that returned 0 or failed knows that everything '
+             'the peer sent before has been delivered; a write error says nothing about bytes still waiting in the socket', floor=2)
+    TC = 'tbox::network::TcpConnection'
+    closed = prog.fn1(TC + '::onSocketClosed')
+    READ_SETTERS = ('setReadZeroCallback', 'setReadErrorCallback')
+    # handlers that reach onSocketClosed
+    reach = {closed.usr: closed}
+    for g in prog.methods_of(TC):
+        if any(c.get('usr') == closed.usr for c in g.calls()):
+            reach[g.usr] = g
+    n = 0
+    for g in prog.funcs.values():
+        if prog.outermost(g).cls != TC:
+            continue
+        for c in g.calls():
+            if not (c.get('fn') or '').startswith('set') or not (c.get('fn') or '').endswith('Callback'):
+                continue
+            bound = {g.stmts[x].get('usr') for a in c.get('args', []) for x in g.walk(a) if g.stmts[x]['k'] == 'DeclRefExpr' and g.stmts[x].get('dk') == 'CXXMethod'}
+            for u in bound & set(reach):
+                n += 1
+                ok = c['fn'] in READ_SETTERS
+                ctx.ob('C06.R11', '%s->%s' % (c['fn'], reach[u].short), ok, '%s leads to onSocketClosed: a read-side notification' % c['fn'] if ok else
+                       '%s is bound to %s, which reaches onSocketClosed(): the connection is reported closed and destroyed on an event that is not a read of 0 / a read error — data the '
+                       'peer sent before it closed is still in the socket and is never delivered' % (c['fn'], reach[u].short), where=g.loc(c['i']))
+    # direct callers other than the bound handlers
+    for u, g in reach.items():
+        if g is closed:
+            continue
+        bound_somewhere = any(u in {h.stmts[x].get('usr') for a in c.get('args', []) for x in h.walk(a) if h.stmts[x]['k'] == 'DeclRefExpr'}
+                              for h in prog.funcs.values() if prog.outermost(h).cls == TC for c in h.calls() if (c.get('fn') or '').endswith('Callback'))
+        if not bound_somewhere:
+            n += 1
+            ctx.ob('C06.R11', '%s->onSocketClosed' % g.short, False, '%s() calls onSocketClosed() and is not one of the read-side handlers' % g.short, where=g.loc(g.body))
+    if n < 2:
+        raise AnalysisBroken('expected the read-zero and read-error registrations leading to onSocketClosed, found %d' % n)
+
+
 def run(ctx):
     prog = extract('ALL' if ctx.tier == 'thorough' else SCOPE)
     ctx.guard(r1, ctx, prog)
@@ -421,6 +460,7 @@ def run(ctx):
     ctx.guard(r4, ctx, prog)
     ctx.guard(r5, ctx, prog)
     ctx.guard(r10, ctx, prog)
+    ctx.guard(r11, ctx, prog)
     # the send queue and the receive buffer are util::Buffer objects: the byte stream is only in order / lossless if the buffer's
     # window arithmetic is right, so the Buffer rules of C07 are part of this check as well (ids C06.B1..B4)
     from rules import C07
